@@ -316,6 +316,17 @@ def csv_roundtrip(prop, tier, seed):
                     break
             if len(fails) >= 5:
                 break
+    # zero-field records under the whitespace policy: an empty line is a record without fields
+    for table in ([[]], [[], []], [[], [], []]):      # rectangular (ragged tables rightly warn about field counts)
+        for sep in ('\n', '\r\n'):
+            n += 1
+            try:
+                text, ww = write_table(table, ' ', 'whitespace', sep)
+                recs, hdr, rw = read_table(text, ' ', 'whitespace')
+            except Exception as e:
+                recs, ww, rw = repr(e), [], []
+            if recs != table or ww or rw:
+                fails.append({'replay': 'none', 'key': 'rt-ws-empty-record:%r:%r' % (sep, table), 'table': table, 'expected': table, 'observed': recs, 'warnings': [ww, rw]})
     # the same round trip through the utf-8 codec (BOM handling is encoding specific): BOM characters anywhere but the table start
     for policy, d, table in (('quoted_rfc', ',', [['a\n\ufeffb']]), ('quoted_rfc', ',', [['x', 'p\n\ufeff'], ['\ufeffy', 'z']]), ('quoted', ',', [['a', '\ufeffb'], ['\ufeffc', 'd']]),
                              ('simple', '\t', [['a', 'b'], ['\ufeffc', 'd']]), ('quoted_rfc', ';', [['a\r\n\ufeff\nb', 'c']])):
